@@ -64,6 +64,9 @@ def _eval_alphabet(T, dt):
     k = max(1, int((T / dt) // 2))
     g = min(k * dt / T, 1.0)
     vals = [0.0, 1 / 3, 0.37, 0.5, g, float(np.nextafter(g, 2.0)) if g < 1 else g, float(np.nextafter(g, -1.0)), 0.1 + 0.2, max(0.0, (T - 0.5) / T), 1.0]
+    # just inside the window within which the grid treats two times as one (1e-10 of the duration): next to a grid point, next to time 0
+    g1 = dt / T if dt < T else g
+    vals += [g1 + 5e-11, 5e-11]
     out = []
     for v in vals:
         if 0.0 <= v <= 1.0 and v not in out:
